@@ -149,7 +149,7 @@ def main(argv):
         data = rec.to_json()
         data["wall"] = time.monotonic() - t0
         with open(outp, "w") as f:
-            json.dump(data, f, ensure_ascii=False, default=repr)
+            json.dump(data, f, default=repr)
     elif mode == "replay":
         pid, inp, outp = argv[1], argv[2], argv[3]
         mod = load_prop(pid)
@@ -157,7 +157,7 @@ def main(argv):
             cases = json.load(f)
         res = replay_cases(mod, pid, cases)
         with open(outp, "w") as f:
-            json.dump(res, f, ensure_ascii=False, default=repr)
+            json.dump(res, f, default=repr)
     else:
         raise SystemExit(f"unknown mode {mode}")
 
